@@ -9,9 +9,13 @@ ID = 'C04'
 GENS = ['units', 'consts']
 TARGETS = ['BC.Props.C04']
 PROP_FILES = ['BC/Props/C04.lean', 'BC/Lemmas/Loop.lean', 'BC/Lemmas/C04Term.lean']
+# source ties: function bodies regenerated from the Python source by translate/t_funcs.py, proved equal to the model functions
+SRC = {'module': 'BC.Props.C04Src', 'file': 'BC/Props/C04Src.lean',
+       'theorems': ['C04_src_limit_reason', 'C04_src_loop_condition', 'C04_src_min_step']}
 THEOREMS = ['C04_limit_reason_spec', 'C04_reason_truthful', 'C04_ok_respects_limits', 'C04_limits_only_stop', 'C04_prefix_unperturbed',
             'C04_loop_outcomes', 'C04_vertical_velocity_step', 'C04_terminates_partial', 'C04_below_floor_stops']
 STATEMENTS = {
+    'C04_src_limit_reason': 'SOURCE TIE (all C04_src_*): the limit check of the loop body of _integrate (three limits, reason chain, raise RangeError(reason, rows)), the while condition and min_step, executed symbolically from the Python source on every run, equal limitReason / the guard of loop / minOf of the model',
     'C04_limit_reason_spec': 'limitReason = first violated limit in the order velocity, drop, altitude; none iff all three respected',
     'C04_reason_truthful': 'iterate = error(range reason rows) -> the post-step state violates exactly that limit (first in precedence) and the '
                            'last row of rows is the row of that state (distance, height, speed, time)',
